@@ -340,3 +340,102 @@ Proof.
            split; [eapply nth_error_In; eauto|now rewrite Ha].
         -- eapply (IHr N2 i j); eauto.
 Qed.
+
+(* ------------------------------------------------------------------ *)
+(** * The live nodes with their own fields *)
+
+(* (id, own fields) of every live node; the children stored in [node] are not looked at *)
+Fixpoint lnodes (d : dt) : list (id * xtree) :=
+  match d with
+  | DN n node kids => (n, node) :: (fix go (ks : list dt) : list (id * xtree) :=
+                                      match ks with [] => [] | k :: r => (if alive_d k then lnodes k else []) ++ go r end) kids
+  end.
+Definition klnodes (ks : list dt) : list (id * xtree) := flat_map (fun k => if alive_d k then lnodes k else []) ks.
+Lemma lnodes_unfold n node kids : lnodes (DN n node kids) = (n, node) :: klnodes kids.
+Proof. reflexivity. Qed.
+
+Lemma lnodes_root d : In (did d, dlab d) (lnodes d).
+Proof. destruct d. rewrite lnodes_unfold. now left. Qed.
+
+Lemma klnodes_In ks k e : In k ks -> alive_d k = true -> In e (lnodes k) -> In e (klnodes ks).
+Proof. intros H1 H2 H3. unfold klnodes. apply in_flat_map. exists k. rewrite H2. auto. Qed.
+
+Lemma klnodes_inv ks e : In e (klnodes ks) -> exists k, In k ks /\ alive_d k = true /\ In e (lnodes k).
+Proof.
+  unfold klnodes. intros H. apply in_flat_map in H as (k & Hk & He). destruct (alive_d k) eqn:E; [eauto|contradiction].
+Qed.
+
+Lemma lnodes_sub : forall p d k, dlpath d p -> dget_at d p = Some k -> incl (lnodes k) (lnodes d).
+Proof.
+  induction p as [|i p IH]; intros d k HP HG; cbn [dlpath dget_at] in *.
+  - inversion HG; subst. apply incl_refl.
+  - destruct HP as (c & Hc & Ha & HP). rewrite Hc in HG. destruct d as [n node kids]. cbn [dkids] in *.
+    intros x Hx. rewrite lnodes_unfold. right. eapply klnodes_In; [eapply nth_error_In; eauto|exact Ha|].
+    eapply IH; eauto.
+Qed.
+
+Lemma lnodes_ids d : map fst (lnodes d) = lids d.
+Proof.
+  induction d as [n node kids IH] using dt_ind2. rewrite lnodes_unfold, lids_unfold. cbn [map fst]. f_equal.
+  unfold klnodes, klids. induction IH as [|k r Hk _ IHr]; [reflexivity|]. cbn [flat_map]. rewrite map_app, IHr.
+  destruct (alive_d k); [now rewrite Hk|reflexivity].
+Qed.
+
+Lemma klnodes_set_nth ks i c' e : In e (klnodes (set_nth i c' ks)) ->
+  In e (klnodes ks) \/ (i < length ks /\ alive_d c' = true /\ In e (lnodes c')).
+Proof.
+  revert i; induction ks as [|y ks IH]; intros [|i] H; cbn [set_nth] in H; try (now left).
+  - unfold klnodes in H. cbn [flat_map] in H. apply in_app_or in H as [H|H].
+    + destruct (alive_d c') eqn:E; [|contradiction]. right. cbn [length]. split; [lia|auto].
+    + left. unfold klnodes. cbn [flat_map]. apply in_or_app. now right.
+  - unfold klnodes in H. cbn [flat_map] in H. apply in_app_or in H as [H|H].
+    + left. unfold klnodes. cbn [flat_map]. apply in_or_app. now left.
+    + destruct (IH i H) as [H1|(H1 & H2 & H3)].
+      * left. unfold klnodes. cbn [flat_map]. apply in_or_app. now right.
+      * right. cbn [length]. split; [lia|auto].
+Qed.
+
+Lemma klnodes_insert_kid ks i x e : In e (klnodes (insert_kid i x ks)) ->
+  In e (klnodes ks) \/ (alive_d x = true /\ In e (lnodes x)).
+Proof.
+  unfold insert_kid, klnodes. rewrite flat_map_app. cbn [flat_map]. intros H.
+  rewrite <- (firstn_skipn i ks) at 1. rewrite flat_map_app.
+  apply in_app_or in H as [H|H]; [left; apply in_or_app; now left|].
+  apply in_app_or in H as [H|H]; [|left; apply in_or_app; now right].
+  destruct (alive_d x); [right; auto|contradiction].
+Qed.
+
+Lemma dmap_at_root_lab p g d : p <> [] -> did (dmap_at p g d) = did d /\ dlab (dmap_at p g d) = dlab d.
+Proof. destruct p as [|i p]; [congruence|]. intros _. cbn [dmap_at]. destruct (nth_error (dkids d) i); [split; reflexivity|destruct d; split; reflexivity]. Qed.
+
+(* the live nodes after a subtree has been rewritten: old ones, or those of the new subtree *)
+Lemma lnodes_dmap_at : forall p d g e, In e (lnodes (dmap_at p g d)) ->
+  In e (lnodes d) \/ exists k, dget_at d p = Some k /\ In e (lnodes (g k)).
+Proof.
+  induction p as [|i p IH]; intros d g e H; cbn [dmap_at dget_at] in *; [right; eauto|].
+  destruct (nth_error (dkids d) i) as [c|] eqn:Ec; [|now left].
+  destruct d as [n node kids]. cbn [did dlab dkids] in *. rewrite lnodes_unfold in H. destruct H as [<-|H].
+  - left. rewrite lnodes_unfold. now left.
+  - apply klnodes_set_nth in H as [H|(_ & Ha & H)]; [left; rewrite lnodes_unfold; now right|].
+    destruct p as [|j p'].
+    + right. exists c. split; [reflexivity|exact H].
+    + assert (Hac : alive_d c = true).
+      { unfold alive_d in *. rewrite (proj2 (dmap_at_root_lab (j :: p') g c ltac:(discriminate))) in Ha. exact Ha. }
+      destruct (IH c g e H) as [H1|H1]; [|right; exact H1].
+      left. rewrite lnodes_unfold. right. eapply klnodes_In; [eapply nth_error_In; eauto|exact Hac|exact H1].
+Qed.
+
+(* a node that is marked dead below the root disappears *)
+Lemma lnodes_dmap_dead : forall p d g k, p <> [] -> dget_at d p = Some k -> alive_d (g k) = false ->
+  incl (lnodes (dmap_at p g d)) (lnodes d).
+Proof.
+  induction p as [|i p IH]; intros d g k Hp HG Hd e H; [congruence|]. cbn [dmap_at dget_at] in *.
+  destruct (nth_error (dkids d) i) as [c|] eqn:Ec; [|exact H].
+  destruct d as [n node kids]. cbn [did dlab dkids] in *. rewrite lnodes_unfold in *. destruct H as [<-|H]; [now left|].
+  right. apply klnodes_set_nth in H as [H|(_ & Ha & H)]; [exact H|].
+  destruct p as [|j p'].
+  + cbn [dmap_at dget_at] in *. inversion HG; subst. congruence.
+  + assert (Hac : alive_d c = true).
+    { unfold alive_d in *. rewrite (proj2 (dmap_at_root_lab (j :: p') g c ltac:(discriminate))) in Ha. exact Ha. }
+    eapply klnodes_In; [eapply nth_error_In; eauto|exact Hac|]. apply (IH c g k ltac:(discriminate) HG Hd e H).
+Qed.
